@@ -57,6 +57,7 @@ def kt_ob(name, spec, family='', bounds='', timeout=120, cost=5, known=None):
     def run(known=(), replay=None):
         t0 = time.perf_counter()
         q0, s0 = K.STATS['queries'], K.STATS['time']
+        K.SECOND.update(agree=0, disagree=0, inconclusive=0)
         res = {'name': name, 'kind': 'kt', 'family': family or name.split('[')[0], 'bounds': bounds}
         try:
             sp = spec()
@@ -113,6 +114,7 @@ def kt_ob(name, spec, family='', bounds='', timeout=120, cost=5, known=None):
         except Exception as e:
             res.update(status='HARNESS_ERROR', detail=f'{type(e).__name__}: {e}\n' + traceback.format_exc()[-1200:])
         res['solver_queries'] = K.STATS['queries'] - q0
+        res['second_solver'] = dict(K.SECOND)
         res['solver_time_s'] = round(K.STATS['time'] - s0, 4)
         res['wall_s'] = round(time.perf_counter() - t0, 3)
         return res
